@@ -18,7 +18,7 @@ T == ndJsonDeserialize(IOEnv.TRACE_FILE)
 VARIABLES tid, i, viol
 vars == <<tid, i, viol>>
 
-Stages == <<"ToYang", "ToLegacy", "Again", "Load">>
+Stages == <<"ToYang", "ToLegacy", "Again", "OtherYangFiles", "Load">>
 
 HasDoc(x) == x.extra # <<"~no-document">>
 Core(x)   == [x EXCEPT !.extra = <<>>]
@@ -42,6 +42,16 @@ AbstractClauses(tr, stage) ==
          (IF Failed(tr, "l2y") \/ Failed(tr, "y2l") THEN {} ELSE
           IF Failed(tr, "l2y2") \/ ~HasDoc(tr.y2) THEN {"ConvertsAgain"} ELSE
             (IF tr.y2 # tr.y THEN {"Idempotent"} ELSE {}))
+    [] stage = "OtherYangFiles" ->
+         \* two other YANG files of the same document: yr = the converter's output with its keyed lists listed in
+         \* another order (as someone writing YANG by hand may do), yw = the file the converter's WRITER (dump_data,
+         \* the convert_legacy_yang command) produces.  lr / lw are what yang_to_legacy makes of them.
+         \* Both must mean what the converter's in-memory output means (which RoundTrip compares with the document).
+         IF Failed(tr, "l2y") \/ Failed(tr, "y2l") \/ ~HasDoc(tr.l) THEN {} ELSE
+           (IF Failed(tr, "reordered") \/ ~HasDoc(tr.lr) THEN {"ConvertsReorderedYang"}
+            ELSE IF tr.lr # tr.l THEN {"KeyedListOrderIrrelevant"} ELSE {})
+           \cup (IF Failed(tr, "written") \/ ~HasDoc(tr.lw) THEN {"WritesYangFile"}
+                 ELSE IF tr.lw # tr.l THEN {"WrittenFileMeansTheSame"} ELSE {})
     [] stage = "Load" ->
          UNION {LET ld == tr.loads[k] IN
                   (IF ld.ea # ld.eb \/ ld.a # ld.b THEN {"SameLoaded_" \o ld.role} ELSE {})
@@ -57,6 +67,7 @@ FileClauses(tr, stage) ==
            (IF \E k \in Idx(tr) : tr.inprec[k] /\ ~tr.norm[k] /\ tr.o[k] # 0 /\ tr.same[k] # tr.o[k]
               THEN {"PreservesValues"} ELSE {})
            \cup (IF \E k \in Idx(tr) : ~tr.norm[k] /\ tr.o[k] = 0 /\ tr.same[k] # 0 THEN {"InventsNothing"} ELSE {})
+    [] stage = "OtherYangFiles" -> {}
     [] stage = "Again" ->
          IF tr.st # "ok" THEN {} ELSE
            (IF tr.l2 # tr.l1 THEN {"IdempotentLegacy"} ELSE {}) \cup (IF tr.y2 # tr.y1 THEN {"IdempotentYang"} ELSE {})
